@@ -363,6 +363,10 @@ pub struct StepSpec {
     pub kind: u8,
     pub frac: f64,
     pub engine_on: bool,
+    /// stand-alone units: the aux load is switched off (`set_pwr_aux(Some(false))`) after the
+    /// limits for the step were published and before the demand is applied
+    #[serde(default)]
+    pub aux_off_after_publish: bool,
 }
 
 pub const FRACS: [f64; 10] = [0.0, 0.25, 0.5, 0.75, 0.9, 0.999, 1.0, 1.0005, 1.002, 1.2];
@@ -397,7 +401,7 @@ pub fn gen_steps(g: &mut Gen, max_steps: usize, dt_max: f64, allow_engine_off: b
                 FRACS[g.weighted(&[2, 5, 5, 5, 4, 2, 2, 2])]
             }
         };
-        v.push(StepSpec { dt, kind, frac, engine_on });
+        v.push(StepSpec { dt, kind, frac, engine_on, aux_off_after_publish: false });
     }
     v
 }
